@@ -73,6 +73,17 @@ def fieldOp (op : String) (args : List String) : M Resp := do
 
 def lanes4 (args : List String) : M (List Nat) := args.mapM feArg
 
+/-- a lane given as 5 raw radix-2^51 limbs (INT LIST): its value mod p -/
+def limbLane (s : String) : M Nat := do
+  let xs ← (parseList s).mapM natArg
+  if xs.length != 5 || xs.any (· ≥ 2 ^ 64) then badreq
+  pure (((List.range 5).zip xs).foldl (fun acc (i, x) => acc + x * 2 ^ (51 * i)) 0 % P)
+
+/-- re-encode raw-limb lane arguments as canonical field bytes so that `vfeOp` can be reused -/
+def limbLanesToHex (n : Nat) (args : List String) : M (List String) := do
+  let lanes ← (args.take n).mapM limbLane
+  pure (lanes.map feOut ++ args.drop n)
+
 def shuffleIdx : Nat → Option (List Nat)
   | 0 => some [0, 0, 0, 0]  -- AAAA
   | 1 => some [1, 1, 1, 1]  -- BBBB
@@ -707,6 +718,18 @@ def handleOp (legacy : Bool) (op : String) (args : List String) : M Resp := do
     ok [if failed.isEmpty then "-" else ",".intercalate failed, if tabStr.isEmpty then "-" else ",".intercalate tabStr]
   | "fe" :: _ => fieldOp op args
   | ["vfe", arch, name] => vfeOp arch name args
+  | ["vfel", arch, name] =>
+    -- same operations on lanes given as raw (possibly unreduced) limbs: value-level specification
+    let nl := if name == "mul" || name == "add" || name == "sub" || name == "blend" then 8 else 4
+    if args.length < nl then badreq else
+    vfeOp arch name (← limbLanesToHex nl args)
+  | ["ed", "mul_raw_limbs"] | ["ed", "direct", _, "mul_limbs"] =>
+    match args with
+    | [X, Y, Z, T, sc] => do
+      let x ← limbLane X; let y ← limbLane Y; let z ← limbLane Z; let t ← limbLane T
+      let p : EPt := ⟨x, y, z, t⟩
+      ok [ptOut (EPt.smul (← rawScArg sc) p)]
+    | _ => badreq
   | "sc" :: _ => scalarOp op args
   | ["ed", "direct", copy, alg] => directOp copy alg args
   | "ed" :: _ => edwardsOp op args
